@@ -49,19 +49,30 @@ MACROS = {
     16: [{"suit-directive-swap": []}],
     17: [{"suit-directive-try-each": [[{"suit-condition-image-match": []}], [{"suit-directive-fetch": []}]]}],
     18: [{"suit-condition-vendor-identifier": []}],
+    19: [{"suit-directive-run-sequence": [_ov({"suit-parameter-image-digest": _dg(0)}), {"suit-condition-image-match": []}]}],
+    20: "next-sequence",   # what follows goes into suit-install, what came before stays in suit-validate
+    21: [{"suit-directive-set-component-index": [0, 1]}],
+    22: [{"suit-directive-set-component-index": False}],
 }
 
 
 def program_desc(prog, k):
     import copy
-    seq = []
+    seqs = [[]]
     for m in prog:
-        seq += copy.deepcopy(MACROS[m])
+        if MACROS[m] == "next-sequence":
+            seqs.append([])
+        else:
+            seqs[-1] += copy.deepcopy(MACROS[m])
+    mf = {"suit-manifest-version": 1, "suit-manifest-sequence-number": k,
+          "suit-common": {"suit-components": [["M", 2, 1000, 64], ["M", 3, 2000, 64]]}}
+    if len(seqs) == 1:
+        mf["suit-install"] = seqs[0]
+    else:   # the walker (and a device) meets suit-validate before suit-install
+        mf["suit-validate"], mf["suit-install"] = seqs
     return {"SUIT_Envelope_Tagged": {
         "suit-authentication-wrapper": {"SuitDigest": {"suit-digest-algorithm-id": "cose-alg-sha-256"}},
-        "suit-manifest": {"suit-manifest-version": 1, "suit-manifest-sequence-number": k,
-                          "suit-common": {"suit-components": [["M", 2, 1000, 64], ["M", 3, 2000, 64]]},
-                          "suit-install": seq},
+        "suit-manifest": mf,
         "suit-integrated-payloads": {"#p": None}}}   # the path is filled in by the caller
 
 
